@@ -406,7 +406,9 @@ class _ActionHelpClassPath(Action):
         if not any(is_subclass(val_class, b) or implements_protocol(val_class, b) for b in self._baseclasses):
             raise TypeError(f'{option_string}: Class "{value}" is not a {self._kind} {self._basename}')
         dest = re.sub("\\.help$", "", self.dest)
-        subparser = type(parser)(description=f"Help for {option_string}={get_import_path(val_class)}")
+        subparser = type(parser)(
+            exit_on_error=parser.exit_on_error, description=f"Help for {option_string}={get_import_path(val_class)}"
+        )
         sub_add_kwargs = dict(self.sub_add_kwargs)
         if ActionTypeHint.is_callable_typehint(typehint) and hasattr(typehint, "__args__"):
             sub_add_kwargs["skip"] = {max(0, len(typehint.__args__) - 1)}
